@@ -34,7 +34,7 @@ func init() {
 		Gen:   genC16, Run: runC16,
 		QuickRuns: 500, ThoroughRuns: 8000,
 		Race: true,
-		Rule: "plan = (2..16 tasks x 5..40 operations out of 33 kinds over Server / Namespace / BroadcastOperator / ServerSocket / ClientSocket / Manager incl. operations issued from event, acknowledgement, connection and disconnect handlers, shared argument values emitted by several tasks at once, 2 namespaces, 2..3 clients, transport, pauses, stall parameters) from VERIF_SEED, run by the race-detector build; " +
+		Rule: "[every other plan creates all clients from one Engine.IO configuration value (shared dial options and HTTP transport)] plan = (2..16 tasks x 5..40 operations out of 33 kinds over Server / Namespace / BroadcastOperator / ServerSocket / ClientSocket / Manager incl. operations issued from event, acknowledgement, connection and disconnect handlers, shared argument values emitted by several tasks at once, 2 namespaces, 2..3 clients, transport, pauses, stall parameters) from VERIF_SEED, run by the race-detector build; " +
 			"non-trivial = at least 4 tasks and at least one operation ran inside a handler; distinct = distinct history digest among those",
 		Assumptions: []string{
 			"the schedule is decided by the simulator on one P (GOMAXPROCS=1, seeded yields at every mutex operation); the race detector works on happens-before, not on observed overlap, so it does not need parallel execution; GOMAXPROCS 2/4/16 would make runs unrepeatable and is not used",
